@@ -42,6 +42,19 @@ def main(argv=None) -> int:
             rep.extra_coverage["selftest"] = st
             if st.get("failed"):
                 raise AnalysisError(f"checker self-test failed for {pid}: {st['failed'][:5]}")
+            from selftest import mutate
+
+            fmt = mutate.format_neutral_check(pid)
+            rep.extra_coverage["layout_neutral_twin"] = {"findings": fmt, "what": "all modules under rules re-generated with ast.unparse (layout/comments changed, behaviour identical) must stay silent"}
+            if fmt:
+                raise AnalysisError(f"layout-neutral twin of {pid} is not silent (rule depends on formatting): {fmt[:3]}")
+            sw = mutate.sweep(pid)
+            rep.extra_coverage["mutation_sweep"] = sw
+            print(f"  self-test: {st['variants']} variants ok ({st.get('firing_ok', 0)} firing, {st.get('neutral_ok', 0)} neutral, {len(st.get('skipped', []))} skipped); "
+                  f"mutation sweep: {sw['mutants_run']} single-point mutants of {sw['functions_mutated']} functions under rules: {sw['killed']} reported as violation, "
+                  f"{sw['unanalysable_exit2']} failed closed (exit 2), {sw['survived']} unnoticed (equivalent / outside the decided clauses; listed in the evidence)")
+            if sw.get("checker_crashes"):
+                raise AnalysisError(f"checker crashed on {sw['checker_crashes']} mutants: {sw['crash_samples'][:2]}")
         return rep.finish(write=not a.no_write)
     except AnalysisError as e:
         print(f"ANALYSIS-ERROR property={pid}: {e}")
